@@ -21,10 +21,10 @@ the basis chosen inside a degenerate subspace provided each of rb / rf contains 
 eigenvalue clusters (the generator guarantees that; the perturbation spread exposes it
 otherwise).
 
-Also here: the conditioning-by-perturbation tolerance of DESIGN 4.2, a textbook
-state-space modal superposition that is used ONLY to measure how sensitive a
-complex-mode method is for the case at hand (never as the reference value), and an
-independent model of ``solvepsd``.
+Also here: the conditioning-by-perturbation tolerance of DESIGN 4.2, a round-off model
+of complex-mode (state-space eigen-decomposition) methods that is used ONLY to widen the
+tolerance for SolveUnc's coupled route (never as a reference value), and an independent
+model of ``solvepsd``.
 """
 import numpy as np
 
@@ -48,6 +48,28 @@ def _idx(pv, n):
     if pv.dtype == bool:
         return np.nonzero(pv)[0]
     return np.sort(pv.astype(int) % n) if pv.size else np.zeros(0, int)
+
+
+def _safe_solve(A, b):
+    try:
+        return np.linalg.solve(A, b)
+    except np.linalg.LinAlgError:
+        return np.full(np.shape(b), np.inf, complex)
+
+
+def _stack_solve(H, rhs):
+    """numpy.linalg.solve over a stack; an exactly singular member yields inf (the
+    caller's conditioning test then refuses that frequency)."""
+    try:
+        return np.linalg.solve(H, rhs)
+    except np.linalg.LinAlgError:
+        out = np.empty(rhs.shape, complex)
+        for q in range(H.shape[0]):
+            try:
+                out[q] = np.linalg.solve(H[q], rhs[q])
+            except np.linalg.LinAlgError:
+                out[q] = np.inf
+        return out
 
 
 def all_included(M, B, K, F, freq, rb=None, rf=None):
@@ -76,7 +98,7 @@ def all_included(M, B, K, F, freq, rb=None, rf=None):
     info = {"rb_rule_gap": 0.0}
 
     if rf.size:
-        d[rf] = np.linalg.solve(K[np.ix_(rf, rf)], F[rf])
+        d[rf] = _safe_solve(K[np.ix_(rf, rf)], F[rf])
     nz = W != 0
     if dyn.size:
         Md, Bd, Kd = (X[np.ix_(dyn, dyn)] for X in (M, B, K))
@@ -84,13 +106,27 @@ def all_included(M, B, K, F, freq, rb=None, rf=None):
             Wn = W[nz]
             H = (-(Wn ** 2)[:, None, None] * Md + 1j * Wn[:, None, None] * Bd + Kd)
             rhs = F[dyn][:, nz].T[:, :, None]
-            d[np.ix_(dyn, np.nonzero(nz)[0])] = np.linalg.solve(H, rhs)[:, :, 0].T
+            x = _stack_solve(H, rhs)
+            # one step of iterative refinement with the residual in extended precision:
+            # the reference is then accurate to the componentwise conditioning, i.e.
+            # better than any plain double-precision LU it is compared with
+            LD = np.clongdouble
+            Wl = Wn.astype(np.longdouble)
+            Hl = (-(Wl ** 2)[:, None, None] * Md.astype(LD)
+                  + LD(1j) * Wl[:, None, None] * Bd.astype(LD) + Kd.astype(LD))
+            with np.errstate(all="ignore"):
+                res = rhs.astype(LD) - np.einsum("fij,fjk->fik", Hl, x.astype(LD))
+                res = res.astype(complex)
+                good = np.isfinite(res).all(axis=(1, 2)) & np.isfinite(x).all(axis=(1, 2))
+                if good.any():
+                    x[good] = x[good] + _stack_solve(H[good], res[good])
+            d[np.ix_(dyn, np.nonzero(nz)[0])] = x[:, :, 0].T
         if (~nz).any():
             z = np.nonzero(~nz)[0]
             if rb.size == 0:
-                d[np.ix_(dyn, z)] = np.linalg.solve(Kd, F[dyn][:, z])
+                d[np.ix_(dyn, z)] = _safe_solve(Kd, F[dyn][:, z])
             elif el.size:
-                d[np.ix_(el, z)] = np.linalg.solve(K[np.ix_(el, el)], F[el][:, z])
+                d[np.ix_(el, z)] = _safe_solve(K[np.ix_(el, el)], F[el][:, z])
     v[:] = 1j * W * d
     a[:] = -(W ** 2) * d
     if rb.size:
@@ -101,8 +137,9 @@ def all_included(M, B, K, F, freq, rb=None, rf=None):
         d_rb[:, nz] = -a_rb[:, nz] / W[nz] ** 2
         if nz.any():
             den = np.abs(a_rb[:, nz]).max(axis=0)
-            gap = np.abs(a[rb][:, nz] - a_rb[:, nz]).max(axis=0)
-            ok = den > 0
+            with np.errstate(invalid="ignore"):
+                gap = np.abs(a[rb][:, nz] - a_rb[:, nz]).max(axis=0)
+            ok = (den > 0) & np.isfinite(gap)
             if ok.any():
                 info["rb_rule_gap"] = float((gap[ok] / den[ok]).max())
         d[rb], v[rb], a[rb] = d_rb, v_rb, a_rb
@@ -186,6 +223,29 @@ def perturb(r, x, delta=1e-13, symmetric=False):
     return x * (1 + delta * u)
 
 
+def perturb_normwise(r, X, blocks, delta=1e-13, scale="row"):
+    """X + E with |E_ij| <= delta * max_j |X_ij| inside each index block (dense, complex).
+
+    Models the backward error of a dense LU-type solver, which is small relative to the
+    row norms of the block it factorises, not relative to each entry.  Structural zeros
+    between blocks stay zero.  scale="global": |E_ij| <= delta * max |X| of the block
+    (backward error of an eigensolver, which is small relative to the norm of the matrix).
+    """
+    X = np.array(X, dtype=complex)
+    for blk in blocks:
+        blk = np.asarray(blk, int)
+        if blk.size < 2:
+            continue
+        ix = np.ix_(blk, blk)
+        sub = X[ix]
+        rowmax = np.abs(sub).max(axis=1)
+        if scale == "global":
+            rowmax = np.full(rowmax.shape, rowmax.max())
+        u = r.uniform(-1, 1, sub.shape) + 1j * r.uniform(-1, 1, sub.shape)
+        X[ix] = sub + delta * rowmax[:, None] * u / np.sqrt(2)
+    return X
+
+
 def spread(ref, copies):
     """max_k |copy_k - ref| element-wise."""
     s = np.zeros(np.shape(ref))
@@ -218,29 +278,66 @@ def column_tol(ref, sig, delta=1e-13, factor=200.0, floor=1e-13, rows=None):
     return tol, amp, scale
 
 
-# -- sensitivity of a complex-mode (state-space) method --------------------------------
+# -- round-off model of a complex-mode (state-space) method ---------------------------
 
-def modal_superposition(M, B, K, F, freq):
-    """d for the dense system by eigen-decomposition of A = [[-M^-1 B, -M^-1 K],[I, 0]].
+def modal_route_bound(M, B, K, F, freq):
+    """Per-frequency bound on the round-off of ANY method that obtains d through the
+    eigen-decomposition  A = U L U^-1  of  A = [[-M^-1 B, -M^-1 K], [I, 0]]  and the sum
+    d = U_d (iW - L)^-1 U^-1 [M^-1 F; 0]   (SolveUnc's coupled route).
 
-    Used only to measure how ill-conditioned the complex-mode route is for this system
-    (spread under 1e-13 input perturbations); never as a reference value.
+    Two terms, both computed from the inputs alone (never from pyYeti's output):
+
+    * backward error of the eigensolver, eps*||A_b|| on the balanced matrix, pushed
+      through the resolvent:  |dy_i| <= t_i ||R_b[i,:]|| ||E|| ||y_b||;
+    * inversion of U and cancellation in the modal sum:
+      eps * cond(U) * |U_d| (|U^-1| |M^-1 F| / |iW - L|)
+      (at high frequency the 1/W terms of the individual modes must cancel to leave
+      the 1/W^2 displacement; at low frequency the large modes must cancel).
+
+    Returns (bound (nf,), cond(U)).  Measured constants on the unchanged tree: the excess
+    of SolveUnc's error over the dense-solve tolerance never exceeded 1.5 x this bound
+    (6 seeds x 130 coupled systems); the check uses 30 x.
     """
+    from scipy.linalg import matrix_balance
     K = np.asarray(K)
     n = K.shape[0]
     M, B, K = full(M, n), full(B, n), full(K, n)
     F = np.asarray(F).astype(complex)
     W = 2 * np.pi * np.asarray(freq, dtype=float)
-    Mi = np.linalg.inv(M)
-    A = np.zeros((2 * n, 2 * n), complex)
-    A[:n, :n] = -Mi @ B
-    A[:n, n:] = -Mi @ K
-    A[n:, :n] = np.eye(n)
-    lam, U = np.linalg.eig(A)
-    Ui = np.linalg.inv(U)
-    g = Ui[:, :n] @ (Mi @ F)
-    y = U[n:] @ (g / (1j * W[None, :] - lam[:, None]))
-    return y
+    nf = W.size
+    try:
+        Mi = np.linalg.inv(M)
+        A = np.zeros((2 * n, 2 * n), complex)
+        A[:n, :n] = -Mi @ B
+        A[:n, n:] = -Mi @ K
+        A[n:, :n] = np.eye(n)
+        lam, U = np.linalg.eig(A)
+        Ui = np.linalg.inv(U)
+        cU = np.linalg.cond(U)
+    except np.linalg.LinAlgError:
+        return np.full(nf, np.inf), np.inf
+    MiF = Mi @ F
+    with np.errstate(all="ignore"):
+        g = np.abs(Ui[:, :n]) @ np.abs(MiF)
+        term2 = EPS * cU * (np.abs(U[n:]) @ (g / np.abs(1j * W[None, :] - lam[:, None]))
+                            ).max(axis=0)
+        Ab, T = matrix_balance(A, permute=False)
+        t = np.diag(T).real
+        nA = np.linalg.norm(Ab, 2)
+        wb = np.vstack([MiF, np.zeros((n, nf))]) / t[:, None]
+        term1 = np.zeros(nf)
+        I2 = np.eye(2 * n)
+        for j, Wj in enumerate(W):
+            try:
+                Rb = np.linalg.inv(1j * Wj * I2 - Ab)
+            except np.linalg.LinAlgError:
+                term1[j] = np.inf
+                continue
+            yb = Rb @ wb[:, j]
+            term1[j] = (t[n:] * np.linalg.norm(Rb[n:], axis=1)).max() \
+                * np.linalg.norm(yb) * nA * EPS
+    out = term1 + term2
+    return np.where(np.isfinite(out), out, np.inf), cU
 
 
 # -- solvepsd model --------------------------------------------------------------------
